@@ -125,6 +125,29 @@ CHECKS = {
 NOT_YET = "check under construction in this session (model/proofs not merged yet); see DESIGN.md §3"
 
 
+LAYER_P = ("Layer P: all 549 functions of vsg/vhdlFile/classify/*.py and vsg/vhdlFile/utils.py are REGENERATED on every run by the translator harness/gen_prog.py (Python ast -> deep-embedded "
+           "program table lean/VsgModel/Generated/ClassifyProg.lean, 542 translated, 7 opaque and named) and run by a fuel-based total interpreter (lean/VsgModel/Prog); the interpreter is compared with the "
+           "real productions token by token (class, value, lower value, exception type, full ClassifyError message) on the whole corpus + re-layouts + corrupted inputs (3 606 runs, 459 functions executed). ")
+
+ADDENDA = {
+    "C01": "Added: all 77 _fix_violation owners are modelled; the whole token_indent family (extractor + analysis + fix) keeps the code sequence for all inputs; the case, line-structure and multi-line-structure families' own synthetic correspondence (real classes vs Lean functions), Lean-witness replay and defect search run inside this check; configuration family `exceptions` (prefix/suffix/whole-word case exception lists drawn from the input's identifiers).",
+    "C02": "Added: multiline_structure model follows the repo repairs (keepGuard), theorem bfix_multiStruct_remove_keeps_comments for all regions; line-structure and multi-line families' correspondence + defect search (comment / preprocessor line absorbs code) run inside this check.",
+    "C03": "Added: whole-rule theorems for the token_indent family (bfull2_indent_layoutOnly for every token list, indent assignment and indent_size) with the whole-rule correspondence BFULL2 (787 k rule x file x option runs); B-full case family correspondence and search at the excluded points (extended identifiers, non-ASCII case pairs).",
+    "C04": LAYER_P + "Theorems generic over the program table (one induction on fuel, inv_run): token-count bookkeeping of every call incl. exceptional exits (prog_call_length), no pop/insert => length unchanged (prog_call_length_noLen), and BY NAME the 18 functions outside that fragment (decide +kernel on the regenerated table). Value preservation of the productions is compared per token on every run; its theorem is stated (Chk.value) and pending.",
+    "C05": LAYER_P + "The roles of every (file, re-layout) pair are therefore produced twice (real parser and translated productions) and compared; the layout-blindness theorem for the productions is pending, so the property is still decided per explored pair for them. set_token_indent is modelled and proved layout-blind (setIndent_layoutBlind).",
+    "C07": "Added: token_indent family whole rule: line count kept and the fixed file is the concatenation of consecutive pieces of which exactly the reported ones change (bfull2_indent_lineCount, bfull2_indent_pieces), for all inputs.",
+    "C09": "Added: the token_indent family converges in one application for all inputs (bfull2_indent_idem); findings are identified by the base class of the culprit rule of the minimal non-converging rule set.",
+    "C10": "Added: token_indent family: the analysis of the file after Rule.fix is empty and the second fix is the identity, for every token list, indent assignment (None, negative) and indent_size, guards CsOk (proved for all 102 generated rule rows), StyleOk, UidOk (bfull2_indent_idem, bfull2_indent_second_fix, bfull2_ruleFix_eq); vertical-spacing families at region level; the second-fix search is not applied under a --fix_only file that lists lines.",
+    "C15": "Added: the process-wide state picture taken around every file covers module globals, class attributes and the mutable default arguments, keyword defaults and closure cells of every function and method of every vsg module.",
+    "C18": "Added: 34 further extractors transcribed (47 of the 55 entry points rules use) with slice-exactness / recorded-line theorems or the exact guard plus a decide witness replayed on the real extractor (8 extractor defects found this way); every real extractor call of the instrumented runs (80 k per quick run) and 187 k synthetic calls are replayed through the Lean driver.",
+    "C19": LAYER_P + "Theorems: the interpreter's result is a value or one of the enumerated outcomes (prog_result_enumerated); the only raise sites of the regenerated table are utils.print_error_message and print_missing_error_message (by name, decide +kernel). Totality of the productions is still decided by the crash/hang search.",
+}
+NOTE_OVERRIDE = {
+    "C04": "The 246 classifier productions are translated, not hand-modelled: the translator gen_prog.py and the interpreter's semantics of the Python subset are trusted as far as the per-token correspondence runs validate them (83 of 542 translated functions are never executed by the corpus and are listed as untested in the evidence).",
+    "C05": "This is where the technique reaches least: the productions are in the model by translation and compared per token, but their layout-blindness is not yet a theorem.",
+}
+
+
 def main():
     props = [json.loads(l)["id"] for l in open(os.path.join(VERIF, "properties.jsonl"))]
     checks = []
@@ -134,6 +157,11 @@ def main():
         if c is None:
             na.append({"property_id": p, "reason": NOT_YET})
             continue
+        c = dict(c)
+        if p in ADDENDA:
+            c["text"] = c["text"] + " " + ADDENDA[p]
+        if p in NOTE_OVERRIDE:
+            c["note"] = NOTE_OVERRIDE[p]
         checks.append(
             {
                 "property_id": p,
